@@ -38,11 +38,46 @@ def _system(ref, pinned, wts, rng, flux_rhs=True):
     A[nf:nf + nc, :nf] = D
     A[nf:nf + nc, -1] = -c[0]
     A[-1, nf:nf + nc] = c[0]
-    g = rng.integers(-8, 9, size=nf).astype(float) if flux_rhs else np.zeros(nf)
+    # flux block of the right-hand side in the units it has in every use by the solvers
+    # (weight x face mass matrix x a flux-like vector), so that it is commensurate with the mass source
+    g = (wts * ref.vol) * rng.integers(-8, 9, size=nf).astype(float) if flux_rhs else np.zeros(nf)
     f = rng.integers(-8, 9, size=nc).astype(float)
     f -= f.mean()
     b = np.concatenate([g, f * ref.vol, [0.0]])
     return A, b
+
+
+def _equilibrated_cond(A):
+    """Condition number after a few sweeps of symmetric row/column max-scaling: the saddle-point
+    matrix mixes entries of very different physical units (flux block ~ cell volume, divergence ~ face
+    area, constraint = 1), whose disparity is not a property of the problem."""
+    B = np.array(A, dtype=float)
+    for _ in range(8):
+        r = np.sqrt(np.abs(B).max(axis=1))
+        r[r == 0] = 1.0
+        B = B / r[:, None]
+        c = np.sqrt(np.abs(B).max(axis=0))
+        c[c == 0] = 1.0
+        B = B / c[None, :]
+    return float(np.linalg.cond(B))
+
+
+def _rel_err(x, xref, nf, nc):
+    """Largest block-wise relative error of (flux | pressure | multiplier); each block is measured in
+    its own units, the multiplier (exactly zero for compatible data) against the pressure scale."""
+    x, xref = np.asarray(x, float), np.asarray(xref, float)
+    if x.shape != xref.shape or not np.all(np.isfinite(x)):
+        return np.inf
+    out = 0.0
+    su = np.abs(xref[:nf]).max() if nf else 0.0
+    sp = np.abs(xref[nf:nf + nc]).max()
+    # a block that vanishes identically is measured against the size it would naturally have
+    # (rounding noise of the other block carried over), never against zero
+    floor = max(1e-10 * max(su, sp), np.finfo(float).tiny)
+    if nf:
+        out = max(out, np.abs(x[:nf] - xref[:nf]).max() / max(su, floor))
+    out = max(out, np.abs(x[nf:nf + nc] - xref[nf:nf + nc]).max() / max(sp, floor))
+    return float(out)
 
 
 def _weights(rng, nf, kind):
@@ -75,7 +110,10 @@ def _nt(case):
     return sum(1 for s in case["shape"] if s >= 2) >= 2 and case.get("wk", "var") == "var"
 
 
-VOXC = {"unit": [1.0, 1.0, 1.0], "pow2": [0.5, 4.0, 0.125], "generic": [0.3, 1.7, 0.55]}
+VOXC = {"unit": [1.0, 1.0, 1.0], "pow2": [0.5, 4.0, 0.125], "generic": [0.3, 1.7, 0.55],
+        # mm-sized cells in SI units (cell volume ~1e-12) and km-sized ones: the flux block of the
+        # system scales with the cell volume, absolute regularisations would show here
+        "tiny": [2.0 ** -13, 2.0 ** -13, 2.0 ** -14], "huge": [1024.0, 512.0, 2048.0]}
 
 
 def enum_direct(tier):
@@ -83,7 +121,7 @@ def enum_direct(tier):
     for i, s in enumerate(all_shapes("quick")):
         if int(np.prod(s)) < 2:
             continue
-        vk = ["unit", "pow2", "generic"][i % 3]
+        vk = ["unit", "pow2", "generic", "tiny", "huge"][i % 5]
         out.append({"shape": s, "vox": VOXC[vk][: len(s)], "vk": vk, "pseed": i, "wk": "var"})
     return out
 
@@ -101,22 +139,24 @@ def check_direct_all_forms(case):
             wts = _weights(rng, ref.num_faces, case.get("wk", "var"))
             A, b = _system(ref, pinned, wts, rng)
             xref = np.linalg.solve(A, b)
-            cond = np.linalg.cond(A)
+            cond = _equilibrated_cond(A)
         x = _solve(w1, A, b)
         sols[form] = x
-        scale = 1 + np.abs(xref).max()
+        # backward error, row by row in the units of that row
+        # the solution satisfies the original full system (global backward error; the block-wise
+        # comparison with the dense solution of that very system below is the sharper statement)
         res = np.abs(A @ x - b).max()
-        if res > 1e-10 * (np.abs(A).max() * scale + np.abs(b).max()):
+        if res > 1e-9 * cond * float((np.abs(A) @ np.abs(x) + np.abs(b)).max()):
             raise Violation(f"residual:{form}:direct", f"|Ax-b| = {res:.3e} for formulation {form}",
                             _tags(case, formulation=form, solver="direct"))
-        err = np.abs(x - xref).max()
-        if err > 1e-12 * cond * scale:
-            raise Violation(f"dense-mismatch:{form}:direct", f"max|x-x_ref| = {err:.3e} (cond {cond:.2e})",
-                            _tags(case, formulation=form, solver="direct"))
+        err = _rel_err(x, xref, ref.num_faces, ref.num_cells)
+        if err > 1e-11 * cond:
+            raise Violation(f"dense-mismatch:{form}:direct", f"block-wise relative error {err:.3e} "
+                            f"(equilibrated cond {cond:.2e})", _tags(case, formulation=form, solver="direct"))
     for a_, b_ in (("full", "flux_reduced"), ("full", "pressure"), ("flux_reduced", "pressure")):
-        d = np.abs(sols[a_] - sols[b_]).max()
-        if d > 1e-12 * cond * (1 + np.abs(xref).max()):
-            raise Violation(f"disagree:{a_}:{b_}", f"max difference {d:.3e}", _tags(case))
+        d = _rel_err(sols[a_], sols[b_], ref.num_faces, ref.num_cells)
+        if d > 2e-11 * cond:
+            raise Violation(f"disagree:{a_}:{b_}", f"block-wise relative difference {d:.3e}", _tags(case))
     return Outcome(_nt(case), [case["shape"], case["vox"], case["pseed"]],
                    (f"dim{len(case['shape'])}", case.get("vk", "")), evals=3)
 
@@ -154,7 +194,7 @@ def check_documented_usable(case):
                         f"{type(e).__name__}: {e}", t)
     xref = np.linalg.solve(A, b)
     tol = 1e-9 if solver == "direct" else 1e-6
-    if np.abs(x - xref).max() > tol * np.linalg.cond(A) * (1 + np.abs(xref).max()):
+    if _rel_err(x, xref, ref.num_faces, ref.num_cells) > tol * _equilibrated_cond(A):
         raise Violation(f"dense-mismatch:{sp}:{solver}", f"max|x-x_ref| = {np.abs(x - xref).max():.3e}", t)
     return Outcome(True, case, (sp, solver))
 
@@ -192,12 +232,11 @@ def check_backends(case):
     pinned = int(w1.constrained_cell_flat_index)
     A, b = _system(ref, pinned, _weights(rng, ref.num_faces, case["wk"]), rng)
     xref = np.linalg.solve(A, b)
-    cond = np.linalg.cond(A)
+    cond = _equilibrated_cond(A)
     x = _solve(w1, A, b)
-    scale = 1 + np.abs(xref).max()
-    err = np.abs(x - xref).max()
-    if not np.all(np.isfinite(x)) or err > tol * cond * scale:
-        raise Violation(f"dense-mismatch:{form}:{solver}", f"max|x-x_ref| = {err:.3e} (cond {cond:.2e}, "
+    err = _rel_err(x, xref, ref.num_faces, ref.num_cells)
+    if err > 10 * tol * cond:
+        raise Violation(f"dense-mismatch:{form}:{solver}", f"block-wise relative error {err:.3e} (cond {cond:.2e}, "
                         f"{'default' if case['default_tol'] else 'tight'} tolerances)", t)
     return Outcome(_nt(case), [case["shape"], case["vox"], form, solver, case["pseed"]],
                    (f"dim{len(case['shape'])}", form, solver,
@@ -229,6 +268,7 @@ def check_reuse(case):
     pinned = int(w1.constrained_cell_flat_index)
     wts = _weights(rng, ref.num_faces, "var")
     tol = 1e-11 if solver == "direct" else 1e-8
+    kept = []
     for k in range(case["n"]):
         if not case["same_matrix"] and k > 0:
             wts = _weights(rng, ref.num_faces, "var")
@@ -236,14 +276,70 @@ def check_reuse(case):
         reuse = case["same_matrix"] and k > 0
         x = _solve(w1, A, b, reuse=reuse)
         xref = np.linalg.solve(A, b)
-        cond = np.linalg.cond(A)
-        err = np.abs(x - xref).max()
-        if err > tol * cond * (1 + np.abs(xref).max()):
+        cond = _equilibrated_cond(A)
+        err = _rel_err(x, xref, ref.num_faces, ref.num_cells)
+        if err > 10 * tol * cond:
             raise Violation(f"sequence:{'reuse' if reuse else 'fresh'}:{form}:{solver}",
                             f"system {k} of the sequence: max|x-x_ref| = {err:.3e}", t)
+        kept.append((x, xref, cond))
+    # solutions handed out earlier stay what they were (no buffer shared between calls)
+    for k, (x, xref, cond) in enumerate(kept):
+        if _rel_err(x, xref, ref.num_faces, ref.num_cells) > 10 * tol * cond:
+            raise Violation(f"sequence:overwritten:{form}:{solver}", f"the solution returned for system {k} was "
+                            f"changed by a later solve on the same object", t)
     return Outcome(True, [case["shape"], case["vox"], form, solver, case["same_matrix"], case["pseed"]],
                    (form, solver, "same-matrix" if case["same_matrix"] else "changing-matrix"),
                    evals=case["n"])
+
+
+def gen_shared_options(tier):
+    @st.composite
+    def strat(draw):
+        g = draw(wass.grid_specs(max_cells={1: 30, 2: 7, 3: 4}, min_cells=2))
+        return {"shape": g["shape"], "vox": g["vox"], "vk": g["vk"],
+                "order": draw(st.permutations(["direct", "amg", "cg"])),
+                "form": draw(st.sampled_from(["pressure", "pressure", "flux_reduced"])),
+                "rhs_exp": draw(st.sampled_from([0, -20, -27, 20])),
+                "explicit": draw(st.booleans()), "pseed": draw(st.integers(0, 2**20))}
+    return strat()
+
+
+def check_shared_options(case):
+    """Several solver objects built one after the other from the *same* options dictionary (only the
+    back-end entry is changed in between, as a user comparing back-ends would do): constructing and using
+    one object does not change the options the next one sees, and every back-end solves systems of
+    small / large absolute magnitude to its relative tolerance."""
+    import copy
+
+    ref, rng = _case_setup(case)
+    opts = {"formulation": case["form"]}
+    if case["explicit"]:
+        opts["linear_solver_options"] = {"rtol": 1e-10, "maxiter": 400}
+    scale = 2.0 ** case["rhs_exp"]
+    wts = _weights(rng, ref.num_faces, "var")
+    for solver in case["order"]:
+        opts["linear_solver"] = solver
+        before = copy.deepcopy(opts)
+        g = darsia.Grid(shape=tuple(case["shape"]), voxel_size=list(case["vox"]))
+        with warnings.catch_warnings():
+            warnings.simplefilter("ignore")
+            w1 = darsia.WassersteinDistanceBregman(g, None, opts)
+        t = _tags(case, formulation=case["form"], solver=solver)
+        A, b = _system(ref, int(w1.constrained_cell_flat_index), wts, rng)
+        b = b * scale
+        x = _solve(w1, A, b)
+        if opts != before:
+            raise Violation("options-mutated", f"building / using a {solver} solver changed the caller's options "
+                            f"dictionary: {before} -> {opts}", t)
+        xref = np.linalg.solve(A, b)
+        tol = 1e-9 if solver == "direct" else (1e-7 if case["explicit"] else 1e-4)
+        err = _rel_err(x, xref, ref.num_faces, ref.num_cells)
+        if err > 10 * tol * _equilibrated_cond(A):
+            raise Violation(f"dense-mismatch:{case['form']}:{solver}", f"right-hand side of magnitude 2^{case['rhs_exp']}: "
+                            f"block-wise relative error {err:.3e}", t)
+    return Outcome(True, [case["shape"], case["vox"], case["order"], case["form"], case["rhs_exp"], case["pseed"]],
+                   (case["form"], f"rhs2^{case['rhs_exp']}", "explicit-tol" if case["explicit"] else "default-tol",
+                    "-".join(case["order"])), evals=3)
 
 
 def gen_end_to_end(tier):
@@ -305,8 +401,9 @@ PROP = Prop(
     pid="C08",
     rule=_RULE,
     assumptions=["dense numpy.linalg.solve of the harness-assembled saddle-point system (RefGrid "
-                 "incidence) is the reference; tolerance 1e-12*cond(A) direct, 1e-9*cond tight "
-                 "iterative, 1e-4*cond default iterative tolerances",
+                 "incidence) is the reference; errors are measured block-wise (flux / pressure, each in its own "
+                 "units) against 1e-11 x cond of the row/column-equilibrated matrix (direct), 1e-8 x cond (tight "
+                 "iterative), 1e-3 x cond (default iterative tolerances)",
                  "reuse_solver=True with a *changed* matrix is not asserted; full + amg/cg is refused "
                  "by the code and not generated; PETSc ksp is not installed"],
     subs=[
@@ -317,6 +414,8 @@ PROP = Prop(
         Sub("backends_match_dense_reference", check_backends, gen=gen_iterative,
             n={"quick": 300, "thorough": 6000}, shards={"quick": 3, "thorough": 12}),
         Sub("reuse_is_transparent", check_reuse, gen=gen_reuse,
+            n={"quick": 200, "thorough": 4000}, shards={"quick": 2, "thorough": 8}),
+        Sub("shared_options_and_scales", check_shared_options, gen=gen_shared_options,
             n={"quick": 200, "thorough": 4000}, shards={"quick": 2, "thorough": 8}),
         Sub("end_to_end_distance", check_end_to_end, gen=gen_end_to_end,
             n={"quick": 60, "thorough": 1500}, shards={"quick": 3, "thorough": 16}),
